@@ -481,6 +481,15 @@ let s3_op (op : string) (rate : n) (src : source) : string * source =
       (opt_str (fun cps -> hex_of_bytes (utf8_encode cps)) v, s)
   | "mb" -> let (v, s) = unres (mutate_seq_one false (mut 1) (bytes_of_hex a.(2)) rate src) in (opt_str hex_of_bytes v, s)
   | "mm" -> let (v, s) = unres (mutate_memo_one (mut 1) (n_of_hex a.(2)) rate src) in (opt_str hex_of_n v, s)
+  | "di" | "df" | "ds" | "db" | "dm" ->
+      let muts = List.map (fun n -> mutator_of_string (String.concat ":" (String.split_on_char '.' n))) (String.split_on_char '+' a.(1)) in
+      let c = { c_version = V2; c_min = N0; c_max = N0; c_mutators = muts; c_rate = rate; c_unsafe = false; c_ext = false; c_buf = false } in
+      (match a.(0) with
+       | "di" -> let ((v, s), _) = unres (mutate_int c (z_of_hex 32 a.(2)) rate src) in (hex_of_z 32 v, s)
+       | "df" -> let ((v, s), _) = unres (mutate_float c (n_of_hex a.(2)) rate src) in (hex_of_n v, s)
+       | "ds" -> let ((v, s), _) = unres (mutate_string c (utf8_decode (bytes_of_hex a.(2))) rate src) in ("v" ^ hex_of_bytes (utf8_encode v), s)
+       | "db" -> let ((v, s), _) = unres (mutate_bytes c (bytes_of_hex a.(2)) rate src) in ("v" ^ hex_of_bytes v, s)
+       | _ -> let ((v, s), _) = unres (mutate_memo_index c (n_of_hex a.(2)) rate src) in (hex_of_n v, s))
   | "pp" ->
       let delta = bytes_of_hex a.(2) and prefix = bytes_of_hex a.(3) in
       let ((cur, s), fired) = unres (post_one (mut 1) delta delta rate src) in
@@ -498,7 +507,7 @@ let s3_oracle (op : string) (rate_hex : string) (impl : string) : (string * stri
   let rate_is_one = rate_hex = "3ff0000000000000" in
   let some_of s = if String.length s > 5 && String.sub s 0 5 = "some:" then Some (String.sub s 5 (String.length s - 5)) else None in
   let is_panic = String.length impl >= 6 && String.sub impl 0 6 = "panic:" in
-  let is_mut = String.length a.(0) = 2 && (a.(0).[0] = 'm' || a.(0) = "pp") in
+  let is_mut = String.length a.(0) = 2 && (a.(0).[0] = 'm' || a.(0).[0] = 'd' || a.(0) = "pp") in
   if is_panic then (fail (if is_mut then "C16" else "C18") ("panic: " ^ impl); !fails)
   else begin
     (match a.(0) with
@@ -525,6 +534,31 @@ let s3_oracle (op : string) (rate_hex : string) (impl : string) : (string * stri
               if rate_is_zero then fail "C15" (Printf.sprintf "%s mutated %s to %s at rate 0" a.(1) a.(2) r)
           | None ->
               if rate_is_one && applicable then fail "C15" (Printf.sprintf "%s did not mutate %s at rate 1.0" a.(1) a.(2)))
+     | "di" | "df" | "ds" | "db" | "dm" ->
+         (* C15 on the generator's dispatch: at rate 0 the value is returned unchanged; at rate 1 it is the result of the FIRST
+            registered mutator that is applicable to it, i.e. it lies within that mutator's contract *)
+         let muts = List.map (fun n -> mutator_of_string (String.concat ":" (String.split_on_char '.' n))) (String.split_on_char '+' a.(1)) in
+         let strip s = if String.length s > 0 && s.[0] = 'v' then String.sub s 1 (String.length s - 1) else s in
+         let input = a.(2) and r = strip impl in
+         let applicable m = (match a.(0) with
+           | "di" -> applies_int m | "df" -> applies_float m
+           | "ds" -> applies_seq m (utf8_decode (bytes_of_hex input)) | "db" -> applies_seq m (bytes_of_hex input)
+           | _ -> applies_memo m) in
+         let within m = (match a.(0) with
+           | "di" -> contract_int (n_of_int 32) int_boundaries m (z_of_hex 32 input) (z_of_hex 32 r)
+           | "df" -> contract_float m (n_of_hex r)
+           | "ds" -> contract_seq true m (utf8_decode (bytes_of_hex input)) (utf8_decode (bytes_of_hex r))
+           | "db" -> contract_seq false m (bytes_of_hex input) (bytes_of_hex r)
+           | _ -> contract_memo m (n_of_hex input) (n_of_hex r)) in
+         let same = (match a.(0) with
+           | "di" -> z_of_hex 32 input = z_of_hex 32 r | "df" | "dm" -> n_of_hex input = n_of_hex r
+           | _ -> bytes_of_hex input = bytes_of_hex r) in
+         if rate_is_zero && not same then fail "C15" (Printf.sprintf "dispatch over [%s] changed %s to %s at rate 0" a.(1) input r);
+         if rate_is_one then
+           (match List.filter applicable muts with
+            | m1 :: _ -> if not (within m1) then
+                fail "C15" (Printf.sprintf "dispatch over [%s] at rate 1.0 returned %s for %s: not a result of the first applicable mutator" a.(1) r input)
+            | [] -> if not same then fail "C15" (Printf.sprintf "dispatch over [%s] changed %s although no registered mutator applies" a.(1) input))
      | "pp" ->
          let m = mut 1 in
          let delta = bytes_of_hex a.(2) and prefix = bytes_of_hex a.(3) in
